@@ -7,7 +7,7 @@ import decsuite as ds
 import gen
 import msggen
 
-THEOREMS = ["C09.c09_every_stream", "C09.c09_every_stream_run", "C09.decodeStream_none", "stream_is_iteration", "C09.c09_stream_of_arbitrary_messages", "C09.c09_stream_run", "C09.chain_inv", "C09.c09_first_failing_command", "C09.c09_first_failing_response", "stream_chain_then", "stream_fails_at_command", "stream_fails_at_response", "stream_is_chain", "decode_sh", "decodeCommand_sh", "decodeResponse_sh",
+THEOREMS = ["C09.c09_every_stream", "C09.c09_iteration_total", "C09.c09_every_stream_run", "C09.decodeStream_none", "stream_is_iteration", "C09.c09_stream_of_arbitrary_messages", "C09.c09_stream_run", "C09.chain_inv", "C09.c09_first_failing_command", "C09.c09_first_failing_response", "stream_chain_then", "stream_fails_at_command", "stream_fails_at_response", "stream_is_chain", "decode_sh", "decodeCommand_sh", "decodeResponse_sh",
             "decodeStream_acct", "C09.c09_stream_step", "C09.c09_stream_end", "decodeStream_ok", "specStream_inner", "stream_run",
             "MsgWF.c09_stream", "MsgWF.c09_stream_cons", "MsgWF.c01_command", "MsgWF.c01_response",
             "decodeStream_sound", "AcceptIff.stream_accept_iff",
